@@ -642,3 +642,57 @@ def shared_dirfd_threads(w, report, rounds: int = 6, nthreads: int = 8) -> int:
     finally:
         shutil.rmtree(top, ignore_errors=True)
     return n
+
+PARKED = r"""
+import sys, os, json, resource
+sys.path.insert(0, sys.argv[1])
+import common  # noqa: F401  (puts the library under test on sys.path)
+from wcmatch import glob as G, pathlib as WP
+top, outp = sys.argv[2], sys.argv[3]
+soft, hard = resource.getrlimit(resource.RLIMIT_NOFILE)
+calls = [('*.txt', 0), ('**', G.GLOBSTAR), ('*/*', 0), ('sub/*', 0), ('**/*.txt', G.GLOBSTAR)]
+before = [G.glob(p, flags=fl, root_dir=top) for p, fl in calls]
+resource.setrlimit(resource.RLIMIT_NOFILE, (64, hard))
+parked, firsts = [], []
+try:
+    for k in range(150):
+        p, fl = calls[k % len(calls)]
+        it = G.iglob(p, flags=fl, root_dir=top) if k % 3 else (str(x) for x in WP.Path(top).glob(p, flags=fl))
+        firsts.append(next(it, None))
+        parked.append(it)
+    after = [G.glob(p, flags=fl, root_dir=top) for p, fl in calls]
+finally:
+    resource.setrlimit(resource.RLIMIT_NOFILE, (soft, hard))
+rest = [len(list(it)) for it in parked]
+json.dump({'before': before, 'after': after, 'firsts_none': sum(1 for x in firsts if x is None), 'rest': rest,
+           'fds_open': len(os.listdir('/proc/self/fd'))}, open(outp, 'w'))
+"""
+
+
+def parked_iterators(w, report) -> int:
+    """150 half-consumed iglob / Path.glob iterators alive under a descriptor limit of 64, then further glob calls: every answer is the
+    answer of the same call before (a glob call's answer does not depend on other, unfinished glob calls).  Run in a subprocess."""
+    top = tempfile.mkdtemp(prefix='k9park-', dir='/tmp')
+    d = tempfile.mkdtemp(prefix='k9-', dir='/tmp')
+    try:
+        os.makedirs(os.path.join(top, 'sub', 'deep'))
+        for f in ('a.txt', 'b.txt', 'c.py', 'sub/s.txt', 'sub/t.py', 'sub/deep/u.txt'):
+            open(os.path.join(top, f), 'w').close()
+        outp = os.path.join(d, 'out.json')
+        r = subprocess.run([common.PY, '-c', PARKED, os.path.dirname(os.path.abspath(__file__)), top, outp],
+                           capture_output=True, text=True, timeout=300, env={**os.environ, 'WCMATCH_REPO': common.REPO})
+        if r.returncode != 0:
+            report('glob calls with parked iterators alive crashed', {'api': 'glob / iglob', 'stderr': r.stderr[-400:]}, 'answers', 'exception')
+            return 1
+        o = json.load(open(outp))
+        if o['after'] != o['before']:
+            report('glob answers change while 150 half-consumed iglob / Path.glob iterators are alive (descriptor limit 64)',
+                   {'api': 'glob', 'history': '150 x next(iglob(p)) without exhausting, then glob(p)', 'patterns': ['*.txt', '**', '*/*', 'sub/*', '**/*.txt']},
+                   [len(x) for x in o['before']], [len(x) for x in o['after']])
+        if o['firsts_none']:
+            report('an iglob call yields nothing while other half-consumed iterators are alive (descriptor limit 64)',
+                   {'api': 'iglob', 'history': '150 x next(iglob(p))', 'empty_first_results': o['firsts_none']}, 0, o['firsts_none'])
+        return 150 + 5
+    finally:
+        shutil.rmtree(top, ignore_errors=True)
+        shutil.rmtree(d, ignore_errors=True)
